@@ -150,6 +150,7 @@ def run(ctx, rep):
     nofollow_probe_rule(P, rep, 'R-C18-7', ('filter_existence',), 'the -m / -e existence filters')
     filter_parity_rule(P, rep, 'R-C18-8')
     filter_subject_rule(P, rep, 'R-C18-9')
+    selection_effects_rule(P, rep, 'R-C18-10')
 
 
 def filter_semantics_rule(P, rep, rid='R-C18-6'):
@@ -459,3 +460,53 @@ def filter_subject_rule(P, rep, rid):
                   function='state_filter', construct='filter on %s' % q)
     if n < 8:
         raise AnalysisBroken('state_filter: filter calls on entity paths not recognised (%d)' % n)
+
+
+SELECTION_WRITE_EFFECTS = {'open', 'open64', 'symlink', 'link', 'hardlink', 'mkdir', 'mkancestor', 'remove', 'unlink', 'rmdir', 'rename', 'truncate', 'ftruncate',
+                           'lmtime', 'fmtime', 'handle_create', 'handle_write', 'windows_symlink', 'windows_link'}
+
+
+def selection_effects_rule(P, rep, rid):
+    """fix writes nothing for an entity the selection left out: in state_check_process every call that changes a data disk
+    (create / open for writing / write / time-stamp / link / directory / removal) is control-dependent on the FILE_IS_EXCLUDED
+    flag of *its* entity being clear.  The flag value is taken from what state_filter stores.  One exception, by its own guard:
+    the removal of files this very run created and did not finish (a flag that state_check_process stores only under the
+    exclusion test, i.e. only on selected files: FILE_IS_CREATED)."""
+    rep.rule(rid, 'state_check_process: every call that modifies a data disk is control-dependent on <entity>_flag_has(<entity>, FILE_IS_EXCLUDED) == 0 (flag value read from state_filter); the removal of files created by this run is recognised by its FILE_IS_CREATED guard', 11)
+    c = P.fn('state_check_process'); sf = P.fn('state_filter')
+    rep.analysed(c, sf)
+    excl = set()
+    for x in sf.calls({'file_flag_set', 'link_flag_set', 'dir_flag_set'}):
+        v = sf.const_of(x.ops[1])
+        if v is not None:
+            excl.add(int(v))
+    if len(excl) != 1:
+        raise AnalysisBroken('state_filter does not store one constant exclusion flag (%s)' % sorted(excl))
+    excl = excl.pop()
+    # flags that state_check_process itself stores only on entities of the selection (FILE_IS_CREATED after a successful
+    # handle_create): a later test of such a flag being set implies the entity was selected
+    import re as _re
+    created = set()
+    for x in c.calls({'file_flag_set'}):
+        v = c.const_of(x.ops[1])
+        if v is None or int(v) == excl:
+            continue
+        gs = [(_re.match(r'(\w+)_flag_has\((.*),(\d+)\)$', t.replace(' ', '')), p) for t, p in guards_of(c, x, expand=True)]
+        if any(m_ and int(m_.group(3)) == excl and not p for m_, p in gs):
+            created.add(int(v))
+        else:
+            created.discard(int(v)); created.add(-int(v))
+    created = {v for v in created if v > 0 and -v not in created}
+    sites = [x for x in c.calls() if x.callee in SELECTION_WRITE_EFFECTS]
+    if len(sites) < 8:
+        raise AnalysisBroken('state_check_process: only %d write-effect call sites found' % len(sites))
+    for x in sites:
+        g = guards_of(c, x, expand=True)
+        fl = [(_re.match(r'(\w+)_flag_has\((.*),(\d+)\)$', t.replace(' ', '')), p) for t, p in g]
+        fl = [(m_.group(1), m_.group(2), int(m_.group(3)), p) for m_, p in fl if m_]
+        sel = [f for f in fl if f[2] == excl and not f[3]]
+        own = [f for f in fl if f[2] in created and f[3]]
+        ok = bool(sel) or (x.callee in ('remove', 'unlink') and bool(own))
+        rep.check(ok, rid, 'state_check_process: %s at line %s only for an entity the selection did not exclude' % (x.callee, x.loc().split(':')[-1]), x.loc(),
+                  ('guarded by %s' % (sel or own)) if ok else 'no guard on the exclusion flag (%d) of the entity: flag tests on the way: %s -- a fix restricted by -f / -d / -m / -e modifies an entity outside the selection' % (excl, [(f[0], f[1], f[2], f[3]) for f in fl]),
+                  function='state_check_process', construct='%s outside the selection' % x.callee)
